@@ -4,6 +4,7 @@ the closest point first; inverting flips the normal; side / edge / corner addres
 blockMesh hexahedron convention (tables regenerated from the source on every run).
 -/
 import CBV.Model.C10
+import CBV.Lemmas.C10List
 import Mathlib.Tactic.Ring
 import Mathlib.Tactic.Linarith
 import Mathlib.Algebra.Order.Field.Rat
@@ -226,5 +227,68 @@ theorem T_C10_set_patch_frame (o o' : Op) (side name : String) (h : o.setPatch s
 theorem T_C10_project_corner_frame (o : Op) (c : Nat) (l : String) :
     (o.projectCorner c l).view.patches = o.view.patches ∧ (o.projectCorner c l).view.faces = o.view.faces ∧
       (o.projectCorner c l).view.edges = o.view.edges := ⟨rfl, rfl, rfl⟩
+
+/-! ### list form of `set_patch`, `remove_edges`, one datum on two edges -/
+
+/-- the list form of `set_patch`: whatever the order of the names (and wherever "top" or "bottom" stand in the
+    list), exactly the listed sides get the name and every other side keeps what it had -/
+theorem T_C10_set_patch_list (sides : List String) (name : String) :
+    ∀ (o : Op), o.sidePatches.length = 4 → (∀ s ∈ sides, s ∈ sixSides) →
+      ∃ o', o.setPatchList sides name = some o' ∧ o'.sidePatches.length = 4 ∧
+        ∀ s' ∈ sixSides, o'.patchOf s' = if s' ∈ sides then some name else o.patchOf s' := by
+  induction sides with
+  | nil => intro o hl _; exact ⟨o, rfl, hl, by simp⟩
+  | cons s rest ih =>
+    intro o hl hv
+    obtain ⟨o1, h1⟩ := setPatch_valid o s name (hv s (by simp))
+    obtain ⟨hl1, hp1⟩ := setPatch_patchOf o o1 s name hl h1
+    obtain ⟨o2, h2, hl2, hp2⟩ := ih o1 hl1 (fun x hx => hv x (by simp [hx]))
+    refine ⟨o2, ?_, hl2, ?_⟩
+    · simp [Op.setPatchList, List.foldlM, h1] at h2 ⊢; exact h2
+    · intro s' hs'
+      rw [hp2 s' hs', hp1 s' hs']
+      by_cases hr : s' ∈ rest <;> by_cases he : s' = s <;> simp [hr, he]
+
+example : (Op.setPatchList {} ["top", "left"] "walls").map (fun o => (o.patchOf "top", o.patchOf "left", o.patchOf "bottom"))
+    = some (some "walls", some "walls", none) := by decide
+
+/-- `remove_edges(corners)` clears exactly the listed slots of that face: an empty list changes nothing, and the
+    other face, the side edges and everything else are never touched -/
+theorem T_C10_remove_edges (cs : List Nat) :
+    ∀ (o : Op), (∀ i, (o.removeEdges true cs).bottomEdges.getD i [] = if i ∈ cs then [] else o.bottomEdges.getD i []) ∧
+      (o.removeEdges true cs).topEdges = o.topEdges ∧ (o.removeEdges true cs).sideEdges = o.sideEdges ∧
+      (∀ i, (o.removeEdges false cs).topEdges.getD i [] = if i ∈ cs then [] else o.topEdges.getD i []) ∧
+      (o.removeEdges false cs).bottomEdges = o.bottomEdges ∧ (o.removeEdges false cs).sideEdges = o.sideEdges := by
+  induction cs with
+  | nil => intro o; simp [Op.removeEdges]
+  | cons c rest ih =>
+    intro o
+    have hb := ih (o.setEdgeSlot (.bottom c) [])
+    have ht := ih (o.setEdgeSlot (.top c) [])
+    simp only [Op.removeEdges, List.foldl_cons, if_true, Bool.false_eq_true, if_false] at hb ht ⊢
+    refine ⟨?_, hb.2.1, hb.2.2.1, ?_, ht.2.2.2.2.1, ht.2.2.2.2.2⟩
+    · intro i
+      rw [hb.1 i]
+      by_cases hr : i ∈ rest
+      · simp [hr]
+      · by_cases he : i = c
+        · subst he; simp [hr, Op.setEdgeSlot, List.getD_eq_getElem?_getD, List.getElem?_set]
+          split <;> simp
+        · simp [hr, he, Op.setEdgeSlot, List.getD_eq_getElem?_getD, Ne.symm he]
+    · intro i
+      rw [ht.2.2.2.1 i]
+      by_cases hr : i ∈ rest
+      · simp [hr]
+      · by_cases he : i = c
+        · subst he; simp [hr, Op.setEdgeSlot, List.getD_eq_getElem?_getD, List.getElem?_set]
+          split <;> simp
+        · simp [hr, he, Op.setEdgeSlot, List.getD_eq_getElem?_getD, Ne.symm he]
+
+theorem T_C10_remove_edges_empty (o : Op) (b : Bool) : o.removeEdges b [] = o := rfl
+
+/-- one datum put on two slots shows on exactly those two block edges -/
+example : (((({} : Op).setEdgeSlot (.bottom 0) ["g"]).setEdgeSlot (.side 2) ["g"]).view.edges)
+    = [(0, 1, ["g"]), (2, 6, ["g"])] := by decide
+
 
 end CBV.C10
